@@ -213,8 +213,9 @@ def scan_file(rel, src_raw, sites, extern_sites, problems):
             i = fn[1] + m.end() - 1
             j = braces(src, i)
             rest = src[j:j + 80]
-            if re.match(r"\s*else\s*\{\s*None\s*\}\s*;", rest) and "||" not in m.group(2):
-                opt[m.group(1)] = flags_in(m.group(2), al)
+            cond = re.sub(r"&&\s*\(\s*(?:!options\.use_core\s*\|\|\s*rust_features\.core_ffi_c|rust_features\.core_ffi_c\s*\|\|\s*!options\.use_core)\s*\)", "", m.group(2))
+            if re.match(r"\s*else\s*\{\s*None\s*\}\s*;", rest) and "||" not in cond:
+                opt[m.group(1)] = flags_in(cond, al)
         return al, opt
 
     for construct, rx in MARKERS:
